@@ -16,6 +16,7 @@ def hexs(s):
 
 class C01(Prop):
     id = "C01"
+    thorough_rounds = 4   # thorough tier: this many independently seeded rounds of the random generators (duplicates dropped)
     modules = ["H3.Props.C01"]
     engines = ["e2e"]
     design_ref = "DESIGN.md section 7, C01"
